@@ -107,6 +107,6 @@ EXPORT errno_t _strcmpfld_s_chk(const char *dest, rsize_t dmax, const char *src,
     }
 
     /* all dmax characters equal: do not look at dest[dmax], src[dmax] */
-    *resultp = dmax ? *dest - *src : 0;
+    *resultp = dmax ? (unsigned char)*dest - (unsigned char)*src : 0;
     return (EOK);
 }
